@@ -63,6 +63,17 @@ pub(crate) mod verif_responder {
         same_nonce: bool,
         fail_mask: u32,
     ) {
+        batch_body_opt::<K, NL, LL, W, RL>(version, same_nonce, fail_mask, false)
+    }
+
+    /// `light`: only the pairing obligations of C09 (count, destination, echoed nonce, index); the
+    /// signature / certificate / inclusion-proof obligations are left to the full harnesses.
+    pub fn batch_body_opt<const K: usize, const NL: usize, const LL: usize, const W: usize, const RL: usize>(
+        version: Version,
+        same_nonce: bool,
+        fail_mask: u32,
+        light: bool,
+    ) {
         dalek::model_reset();
         ring::rand::model_reset(None);
         ring::digest::model_reset(false);
@@ -148,6 +159,10 @@ pub(crate) mod verif_responder {
             vassert!(len(5) == 4 && le32(&m, at(5)) as usize == j, "VERIF:C09:index-is-the-requests-position-in-the-batch");
             // PATH: depth x protocol hash width
             vassert!(len(2) == d * W, "VERIF:C02:path-length-is-depth-times-protocol-hash-width");
+            if light {
+                j += 1;
+                continue;
+            }
             // SIG / SREP are what the online key signed for this batch
             vassert!(len(0) == 64 && dalek::eq64(&arr::<64>(&m[at(0)..at(0) + 64]), &signed.sig), "VERIF:C02:SIG-is-the-batch-signature");
             let sl = len(3);
@@ -222,6 +237,21 @@ pub(crate) mod verif_responder {
         };
     }
 
+    macro_rules! c09_light {
+        ($name:ident, $k:expr, $nl:expr, $ll:expr, $w:expr, $rl:expr, $ver:expr, $same:expr, $mask:expr, $unwind:expr) => {
+            #[cfg_attr(kani, kani::proof)]
+            #[cfg_attr(kani, kani::unwind($unwind))]
+            #[cfg_attr(kani, kani::stub(<crate::error::Error as std::convert::From<std::io::Error>>::from, crate::verif_support::stub_error_from_io))]
+            #[cfg_attr(kani, kani::stub(std::time::SystemTime::now, crate::responder::verif_responder::stub_now))]
+            #[cfg_attr(kani, kani::stub(std::thread::current::current, crate::responder::verif_responder::stub_thread_current))]
+            #[cfg_attr(kani, kani::stub(std::hash::RandomState::new, crate::stats::verif_aggregated::stub_random_state_new))]
+            #[cfg_attr(not(kani), test)]
+            fn $name() {
+                batch_body_opt::<$k, $nl, $ll, $w, $rl>($ver, $same, $mask, true);
+            }
+        };
+    }
+
     // reply length closed form: 4 + 5*4 + 6*4 + 64 (SIG) + NL + d*W + |SREP| + 152 (CERT) + 4 (INDX)
     //   classic |SREP| = 100, IETF |SREP| = 96
     //@ family c09_batch props=C09,C02,C08,C11,C17,C07,C10 mode=strict mod=responder::verif_responder needs=src/message.rs,src/merkle.rs,src/key/online.rs,src/key/mod.rs,src/grease.rs,src/stats/aggregated.rs,src/stats/mod.rs,src/sign.rs must_cover=COVER:batch-end timeout=900
@@ -229,14 +259,20 @@ pub(crate) mod verif_responder {
     c09_batch!(c09_batch_classic_k1, 1, 64, 4, 64, 432, Version::Google, false, 0, 12);
     //@ harness c09_batch_ietf_k1 tier=quick shape="IETF, batch of 1, nonce 32 B, request leaf 8 B, send ok"
     c09_batch!(c09_batch_ietf_k1, 1, 32, 8, 32, 396, Version::RfcDraft13, false, 0, 12);
-    //@ harness c09_batch_classic_k2 tier=quick shape="classic, batch of 2, nonces 64 B, second send fails" required=no
+    //@ harness c09_batch_classic_k2 tier=thorough shape="classic, batch of 2, nonces 64 B, second send fails" required=no
     c09_batch!(c09_batch_classic_k2, 2, 64, 4, 64, 496, Version::Google, false, 2, 12);
-    //@ harness c09_batch_ietf_k2 tier=quick shape="IETF, batch of 2, nonces 32 B, leaves 8 B" required=no
+    //@ harness c09_batch_ietf_k2 tier=thorough shape="IETF, batch of 2, nonces 32 B, leaves 8 B" required=no
     c09_batch!(c09_batch_ietf_k2, 2, 32, 8, 32, 428, Version::RfcDraft13, false, 0, 12);
     //@ harness c09_batch_classic_k2_same_nonce tier=thorough shape="classic, batch of 2 with identical nonces from different addresses" required=no
     c09_batch!(c09_batch_classic_k2_same_nonce, 2, 64, 4, 64, 496, Version::Google, true, 0, 12);
     //@ harness c09_batch_classic_k3 tier=thorough shape="classic, batch of 3 (padded tree)" required=no
     c09_batch!(c09_batch_classic_k3, 3, 64, 4, 64, 560, Version::Google, false, 0, 13);
+
+    //@ family c09_light props=C09 mode=strict mod=responder::verif_responder needs=src/message.rs,src/merkle.rs,src/key/online.rs,src/key/mod.rs,src/grease.rs,src/stats/aggregated.rs,src/stats/mod.rs,src/sign.rs must_cover=COVER:batch-end timeout=900
+    //@ harness c09_light_classic_k2_same_nonce tier=quick shape="classic, batch of 2 with identical nonces from two addresses: count, destination, nonce, index only" required=no
+    c09_light!(c09_light_classic_k2_same_nonce, 2, 64, 4, 64, 496, Version::Google, true, 0, 12);
+    //@ harness c09_light_ietf_k2 tier=quick shape="IETF, batch of 2, second send fails: count, destination, nonce, index only" required=no
+    c09_light!(c09_light_ietf_k2, 2, 32, 8, 32, 428, Version::RfcDraft13, false, 2, 12);
 
     // ------------------------------------------------------------------ C07: no amplification
     /// A full-size (1024-byte) request whose NONC value is NL bytes long goes through the real
@@ -279,6 +315,13 @@ pub(crate) mod verif_responder {
         vcover!(parsed.is_err(), "COVER:request-dropped");
         if let Ok((nonce, ver)) = parsed {
             vassert!(ver == version, "VERIF:C09:request-routed-to-its-own-protocol");
+            // reply length by the closed form that c09_batch validates on the real replies
+            // (single-request batch: depth 0): decided before the expensive responder run
+            let reply_len = match version {
+                Version::Google => 48 + 64 + nonce.len() + 100 + 152 + 4,
+                Version::RfcDraft13 => 12 + 48 + 64 + nonce.len() + 96 + 152 + 4,
+            };
+            vassert!(reply_len <= 1024, "VERIF:C07:accepted-nonce-length-cannot-make-the-reply-longer-than-the-request");
             let seed = [7u8; 32];
             let mut r = mk_responder(version, &seed, 0, [0u8; 16]);
             let mut stats: Box<dyn ServerStats> = Box::new(AggregatedStats::new());
